@@ -143,10 +143,24 @@ def run_negative():
                            ([fns[1], fns[0], fns[0]], 'duplicate')):
             n += 1
             try:
-                _ENV.load(path, cleaned=cleaned, fields=['id'])
-                probs.append(dict(sig='negative:accepted-' + what, msg=f'{what} file list accepted: {path}'))
+                both = _ENV.load(path, cleaned=cleaned, fields=['id'], subsamples=dict(A=True, pos=True))
             except Exception:
-                pass        # rejected (the kind of exception is not part of the property)
+                continue        # rejected (the kind of exception is not part of the property)
+            # accepted: then it must be what the property says - the concatenation, in list order, of the single-file loads
+            singles = {p: _ENV.load(p, cleaned=cleaned, fields=['id'], subsamples=dict(A=True, pos=True)) for p in set(path)}
+            ok = list(both.halos['id']) == [i for p in path for i in singles[p].halos['id']]
+            off = 0
+            for p in path:
+                cobj = singles[p]
+                for r in range(len(cobj.halos)):
+                    if not ok:
+                        break
+                    s0, n0 = int(cobj.halos['npstartA'][r]), int(cobj.halos['npoutA'][r])
+                    s1, n1 = int(both.halos['npstartA'][off + r]), int(both.halos['npoutA'][off + r])
+                    ok = n0 == n1 and np.array_equal(np.asarray(cobj.subsamples['pos'][s0:s0 + n0]), np.asarray(both.subsamples['pos'][s1:s1 + n1]))
+                off += len(cobj.halos)
+            if not ok:
+                probs.append(dict(sig='negative:accepted-' + what, msg=f'{what} file list accepted but the result is not the concatenation of the single-file loads: {path}'))
         # files of two different catalogs
         cat2 = catgen.Catalog([[V[1]]], slab_ids=[7])
         d2 = _ENV.tree([7])
@@ -302,7 +316,7 @@ def run(case):
                     shown |= set(sv['ids'])
                     if cfg['cleaned']:
                         expN = np.array([byid[i]['N_total'] for i in sv['ids']], dtype=np.int64)
-                        if 'N_total' in sv['cols'] or sv['N'] is None or not np.array_equal(sv['N'].astype(np.int64), expN):
+                        if sv['N'] is None or not np.array_equal(sv['N'].astype(np.int64), expN):        # (N_total may be visible as well)
                             probs.append(dict(sig='filter:sees-N', msg=f'cleaned: filter saw cols={sv["cols"]} N={sv["N"]} expected N={expN.tolist()}'))
                     elif 'N' in fields:
                         expN = np.array([byid[i]['N'] for i in sv['ids']], dtype=np.int64)
